@@ -78,6 +78,10 @@ StateCase ==
        h |-> hplan.var.h, slot |-> hplan.var.slot, blocks |-> bs,
        pipeline_upto |-> IF hplan.var.cls = "base" THEN hplan.n ELSE hplan.var.h - 1,
        nk |-> Len(Kernels(bs)), nu |-> Len(Unspent(bs)),
+       \* the corrupted block is first offered to the block pipeline under every option set
+       pipe |-> IF hplan.var.cls = "base" THEN <<>>
+                ELSE LET opts == SetToSeq(PipelineOptions)
+                     IN  [i \in 1..Len(opts) |-> [h |-> hplan.var.h, opt |-> opts[i], accept |-> PipelineAccepts(bs, hplan.var.h, opts[i])]],
        expect |-> [fast |-> FastValid(bs), full |-> FullValid(bs), rule |-> StateFirstFailing(bs),
                    nvc |-> StateNoValueCreated(bs)]]
 LargeCase ==
